@@ -26,11 +26,15 @@ def failure_blocks(fn):
     return out
 
 
-def success_return_reachable(fn, start_blocks, cut_edges=(), cut_blocks=()):
+def success_return_reachable(fn, start_blocks, cut_edges=(), cut_blocks=(), cp=False):
     """Can a (non-failure) return be reached from start_blocks with the cuts applied?
-    Returns the list of reachable return blocks."""
+    Returns the list of reachable return blocks. cp=True: constant-propagating
+    reachability (A5) so that flag idioms do not create infeasible paths."""
     fb = failure_blocks(fn)
-    R = A.reachable(fn, start_blocks, cut_blocks=set(cut_blocks) | fb, cut_edges=cut_edges)
+    if cp:
+        R = A.reachable_cp(fn, start_blocks, cut_blocks=set(cut_blocks) | fb, cut_edges=cut_edges)
+    else:
+        R = A.reachable(fn, start_blocks, cut_blocks=set(cut_blocks) | fb, cut_edges=cut_edges)
     return [r for r in A.return_blocks(fn) if r in R]
 
 
@@ -90,3 +94,37 @@ def short(name):
 
 def fns_in_file(crate, suffix):
     return [f for f in crate.fns.values() if f.file.endswith(suffix)]
+
+
+def strip_ref(ty):
+    ty = ty.strip()
+    while ty.startswith('&'):
+        ty = ty[1:].lstrip()
+        ty = re.sub(r"^'\w+\s+", '', ty)
+        if ty.startswith('mut '):
+            ty = ty[4:]
+    return ty
+
+
+def enum_dispatches(fn, enum_path):
+    """Switches on the discriminant of a value whose type is exactly `enum_path`
+    (possibly behind references). Returns [(bb, term)]."""
+    out = []
+    for i, b in enumerate(fn.bbs):
+        if b['cleanup'] or b['t'][0] != 'sw':
+            continue
+        t = b['t']
+        if t[1][0] not in ('c', 'm') or t[1][1][1]:
+            continue
+        for st in b['s']:
+            if st[1][0] == 'disc' and st[0][0] == t[1][1][0] and not st[0][1]:
+                pl = st[1][1]
+                if all(x == '*' for x in pl[1]) and strip_ref(fn.locals[pl[0]]) == enum_path:
+                    out.append((i, t))
+    return out
+
+
+def variant_targets(adt, sw_term):
+    """variant name -> target block of a discriminant switch."""
+    listed = dict(sw_term[2])
+    return {v['n']: listed.get(v['d'], sw_term[3]) for v in adt['variants']}
